@@ -316,7 +316,7 @@ theorem compS_labels_aux (cx : Ctx) : ∀ (s : Stmt),
       exact ⟨Nat.le_refl _, (labelsIn_ins _ _ _).append (storeVar_labels _ _ _ _ _) (Nat.le_refl _) (Nat.le_refl _)⟩
     | some e =>
       simp only [compS, newLocal_nl]
-      have he := compE_labels cx (st.newLocal x).scopes e .val st.nl
+      have he := compE_labels cx st.scopes e .val st.nl
       exact ⟨he.1, he.2.append (storeVar_labels _ _ _ _ _) he.1 (Nat.le_refl _)⟩
   | exprStmt e =>
     refine ⟨?_, fun lp st hw _ => by simp [WfS] at hw⟩
